@@ -590,6 +590,17 @@ def witness_periods(rec):
              {'name': 'Has spend', 'locals': [], 'filter': 'total > 0.01'}, {'name': 'Hundred', 'locals': [], 'filter': 'total >= 100'},
              {'name': 'Avg', 'locals': [('a', 'avg(payments)')], 'filter': 'a < 20 and sum(payments) < 59.99'}, {'name': 'P', 'locals': [], 'filter': 'true'}]
     judge(rec, rnd, fine, [], views)
+    # a month whose payments net to exactly zero (a charge refunded in full) is still a month: cv and the monthly aggregates see its 0
+    zero = [tx('Refunded', 2025, 1, 5, 50.0), tx('Refunded', 2025, 1, 20, -50.0), tx('Refunded', 2025, 2, 5, 50.0), tx('Refunded', 2025, 3, 5, 50.0),
+            tx('Steady', 2025, 1, 3, 40.0), tx('Steady', 2025, 2, 3, 40.0), tx('Steady', 2025, 3, 3, 41.0)]
+    views = [{'name': 'Even', 'locals': [], 'filter': 'cv < 0.5'}, {'name': 'Uneven', 'locals': [], 'filter': 'not cv < 0.5'}, {'name': 'Very', 'locals': [], 'filter': 'cv > 0.9'},
+             {'name': 'Zero month', 'locals': [], 'filter': 'min(sum(by("month"))) == 0 and months == 3'}, {'name': 'P', 'locals': [], 'filter': 'true'}, {'name': 'Q', 'locals': [], 'filter': 'total > 0'}]
+    judge(rec, rnd, zero, [], views)
+    # a variable that cannot be evaluated has no value - also when it is named like a primitive, and for every view that reads it
+    views = [{'name': 'Reads bad', 'locals': [], 'filter': 'zbad / total <= 1'}, {'name': 'Reads shadow', 'locals': [], 'filter': 'months >= 1'},
+             {'name': 'Local shadow', 'locals': [('total', 'nosuchname * 2')], 'filter': 'total > 0'}, {'name': 'Or', 'locals': [], 'filter': 'zbad == 0 or total > 0'},
+             {'name': 'Untouched', 'locals': [], 'filter': 'total > 0'}, {'name': 'P', 'locals': [], 'filter': 'true'}]
+    judge(rec, rnd, zero, [('zbad', 'total / period("week")'), ('months', 'nosuchname + 1')], views)
     rec.count('fixed_period_scenarios', 2)
 
 
